@@ -71,9 +71,11 @@ type env struct {
 	nb         int // number of fan-out branches (0/1: no fan-out)
 	fan        *fanState
 	orderRng   *gen.Rand
+	yieldRng   *gen.Rand
 	nextOrder  int
 	ordersSeen [][]int
 	tagSeq     int
+	conc       bool // real concurrency: no gating, random yields
 }
 
 func (e *env) emit(task int, s string) {
@@ -112,6 +114,16 @@ func curGID() uint64 {
 func (e *env) gate(task int) {
 	b, ok := e.branchOf[task]
 	if !ok {
+		return
+	}
+	if e.conc {
+		// schedule diversity: yield a random number of times
+		e.mu.Lock()
+		k := int(e.yieldRng.U64() % 4)
+		e.mu.Unlock()
+		for i := k; i > 0; i-- {
+			runtime.Gosched()
+		}
 		return
 	}
 	gid := curGID()
@@ -599,11 +611,14 @@ func classify(err error) string {
 	return fmt.Sprintf("err fatal=%d code=%s script=%s", f, code, sc)
 }
 
-func runCase(c *fcase, r *gen.Rand, o *gen.Out) (line, res string, nontrivial bool) {
-	e := &env{c: c, gen: r != nil, branchOf: map[int]int{}, o: o}
+func runCase(c *fcase, r *gen.Rand, o *gen.Out, conc bool) (line, res string, nontrivial bool) {
+	e := &env{c: c, gen: r != nil, branchOf: map[int]int{}, o: o, conc: conc}
 	if r != nil {
 		e.seed = r.U64()
 		e.orderRng = gen.New(r.U64())
+	}
+	e.yieldRng = gen.New(e.seed + 77)
+	if false {
 	}
 	src := &fakeSource{e: e}
 	first := &funnel.TaskNode{Task: funnel.NewSourceTask("t0", src, log.Nop(), funnel.NoOpConnectorMetrics{})}
@@ -635,7 +650,7 @@ func runCase(c *fcase, r *gen.Rand, o *gen.Out) (line, res string, nontrivial bo
 		result = classify(w.Do(context.Background()))
 	}()
 	nb := e.nb
-	if r != nil {
+	if r != nil && !conc {
 		c.orders = e.ordersSeen
 	}
 	res = strings.Join(e.log, " ; ") + " => " + result
